@@ -33,7 +33,7 @@ import sys
 
 from harness import common as C
 
-sys.path.insert(0, os.path.join(C.VERIF, "harness", "translators"))
+sys.path.insert(0, os.environ.get("PYFUN_DIR") or os.path.join(C.VERIF, "harness", "translators"))   # PYFUN_DIR: development copy
 import pyfun as T  # noqa: E402
 
 
